@@ -48,6 +48,17 @@ pub fn unify(state: &mut TypeCheckerState, watchdog: &DynWatchdog) -> Result<()>
     // And then resolves all equalities by using the union operation to combine
     // possibly-disjoint sets to create inference sets.
     for type_var in state.variables() {
+        #[cfg(smlxl_storage_layout_extractor_verif)]
+        if crate::verif::ordering_on() {
+            let exprs: Vec<&TypeExpression> = state.inferences(type_var).iter().collect();
+            for type_expr in crate::verif::order("unify.initial_inferences", exprs, |e| format!("{e:?}")) {
+                match type_expr {
+                    TypeExpression::Equal { id } => forest.union(&type_var, id),
+                    _ => forest.add_data(&type_var, HashSet::from([type_expr.clone()])),
+                };
+            }
+            continue;
+        }
         for type_expr in state.inferences(type_var) {
             match type_expr {
                 TypeExpression::Equal { id } => forest.union(&type_var, id),
@@ -84,6 +95,13 @@ pub fn unify(state: &mut TypeCheckerState, watchdog: &DynWatchdog) -> Result<()>
 
             // Get all of the inferences
             let mut inferred_expressions: VecDeque<_> = inferences.into_iter().collect();
+            #[cfg(smlxl_storage_layout_extractor_verif)]
+            let mut inferred_expressions: VecDeque<_> = crate::verif::order(
+                "unify.class_inferences",
+                Vec::from(inferred_expressions),
+                |e| format!("{e:?}"),
+            )
+            .into();
             let mut current = inferred_expressions
                 .pop_front()
                 .expect("We know there is at least one item in the expressions queue");
@@ -112,18 +130,33 @@ pub fn unify(state: &mut TypeCheckerState, watchdog: &DynWatchdog) -> Result<()>
 
         // When we get to the end of that loop, we need to insert the new type variables
         // into the forest so we can add any inferences involving them
+        #[cfg(smlxl_storage_layout_extractor_verif)]
+        let all_new_ty_vars =
+            crate::verif::order("unify.new_ty_vars", all_new_ty_vars.into_iter().collect::<Vec<_>>(), |v| *v);
         for var in all_new_ty_vars {
             forest.insert(var);
         }
 
         // When we get to the end of that loop, we need to compute the unions of
         // the variables with their new associated inferences
+        #[cfg(smlxl_storage_layout_extractor_verif)]
+        let all_equalities = crate::verif::order(
+            "unify.equalities",
+            all_equalities.into_iter().collect::<Vec<_>>(),
+            |e| (e.left, e.right),
+        );
         for Equality { left, right } in all_equalities {
             forest.union(&left, &right);
         }
 
         // When we get to the end of that loop, we need to add any new typing judgements
         // to the state to continue computation
+        #[cfg(smlxl_storage_layout_extractor_verif)]
+        let all_judgements = crate::verif::order(
+            "unify.judgements",
+            all_judgements.into_iter().collect::<Vec<_>>(),
+            |j| (j.tv, format!("{:?}", j.expr)),
+        );
         for Judgement { tv, expr } in all_judgements {
             forest.add_data(&tv, InferenceSet::from([expr]));
         }
